@@ -46,8 +46,11 @@ func (om *options) try(args []string, c *ParseContext) (bool, []string) {
 		if _, exclude := c.ExcludedOpts[o]; exclude {
 			continue
 		}
+		found := len(c.Opts[o])
 		if ok, nargs := (&opt{theOne: o, index: om.index}).Match(args, c); ok {
-			if o.ValueSetFromEnv {
+			// an option with a value from the environment matches without consuming anything: only then
+			// must it be excluded (to avoid looping forever), not when it was found in the args
+			if len(c.Opts[o]) == found {
 				c.ExcludedOpts[o] = struct{}{}
 			}
 			return true, nargs
